@@ -286,8 +286,10 @@ CLAIMED = {
                  "sufficient); C15_kw_handler_clean discharges the former assumption about the keyword handler "
                  "for all data, contexts and parameter texts (unhashable members end in YPE after the repair); "
                  "collectors: the same under the computable guard kc_fragment (leading collector chain whose "
-                 "operands select scalars - the property's own restriction), with C15_collector_nonscalar_refuted "
-                 "and C15_collector_text_refuted (listed finding F25).  Tie: exhaustive small documents x paths "
+                 "operands select scalars - the property's own restriction), with C15_collector_nonscalar_refuted; "
+                 "text glued to a collector ('(a)b', the former finding F25) parses like '(a).b' since the "
+                 "repair and is inside the guard; C15_bracket_collector_refuted: '[(a)]' and '(][max(())]' still "
+                 "reach NotImplementedError (listed finding F30).  Tie: exhaustive small documents x paths "
                  "with indexes / slice bounds negative, in range, out of range, all search forms, keyword "
                  "segments at every position, scalar collectors; required / optional / exists()."),
         "design_ref": "DESIGN.md section 4 (C15), docs/C15.md",
@@ -295,7 +297,7 @@ CLAIMED = {
         "technique": "Coq proof (stream invariant over a fuelled evaluator model with the keyword model plugged in; fuel sufficiency) + differential correspondence",
     },
     "C01": {
-        "text": ("15 theorems (Coq, no axioms) over the evaluator model Eval.v (processor.py's query side, Python "
+        "text": ("14 theorems (Coq, no axioms) over the evaluator model Eval.v (processor.py's query side, Python "
                  "generators as streams): C01_required_sem_partial - for every non-null document and every path of "
                  "the fragment (key incl. Array-of-Hashes pass-through, index, slice, anchor, all five candidate "
                  "loops of a search on '.', a named attribute or a descendant path, all nine operators, inversion, "
@@ -303,8 +305,9 @@ CLAIMED = {
                  "meaning sem_doc of Spec/SpecC01.v (one declarative sel_* clause per segment kind composed by "
                  "flat_map): same node objects, same order, none missing, none extra, and the stream ends Done "
                  "(or Unmatched when empty); guard = the strict reading marks nothing, i.e. outside the listed "
-                 "findings F12a (descendant search reaching several nodes) and F29 (wildcard + filter over a "
-                 "set), each with a _refuted witness and non-vacuity Examples; C01_optional_on_existing_partial "
+                 "finding F12a (descendant search reaching several nodes), with a _refuted witness and "
+                 "non-vacuity Examples (F29, wildcard + filter over a set, is repaired and inside the "
+                 "theorem); C01_optional_on_existing_partial "
                  "(optional = required as streams, nothing created; guard excludes F10 / F16b); exists() iff the "
                  "required query yields a node; dot and slash texts of the same segments give equal escaped "
                  "segments (from C08; the step to equal prepared paths is not proved).  Tie: model vs "
@@ -316,10 +319,10 @@ CLAIMED = {
     },
     "C09": {
         "text": ("Two parts, both run by ./check C09.  Purity (Properties/C09.v, evaluator model Eval.v): for every "
-                 "document and every path without a subtraction collector (collectors with + and & included, at any "
-                 "nesting) no stream of a required query or of exists() ends in a write to the document "
-                 "(C09_required_pure_partial / C09_exists_pure_partial); C09_subtraction_refuted: (h)-(h.a) deletes "
-                 "h.a from the loaded document (listed finding F16).  Creation (Properties/C09b.v, models Create.v / "
+                 "document and EVERY path (collectors with +, - and & included, at any nesting) no stream of a "
+                 "required query or of exists() ends in a write to the document (C09_required_pure / "
+                 "C09_exists_pure, full theorems since the repair of F16: (h)-(h.a) used to delete h.a from the "
+                 "loaded document, the subtraction now reduces a shallow copy).  Creation (Properties/C09b.v, models Create.v / "
                  "Mutate.v): for all well-formed documents and all straight key/index paths with an existing prefix "
                  "and a missing tail of any lengths, every node that existed before keeps its place, info and value "
                  "(C09_create_frame, no guard), the path resolves in the new document to the supplied value and "
@@ -328,7 +331,7 @@ CLAIMED = {
                  "a set; _refuted witnesses).  Tie: a deep snapshot (structure + identities + anchors) of the real "
                  "document around every query; creation compared node by node with object identities."),
         "design_ref": "DESIGN.md section 4 (C09), docs/C09.md, docs/C09b.md",
-        "note": NOTE_COMMON + "  The purity guard is syntactic (no subtraction collector anywhere); optional queries that create nodes are F16b / the creation half.",
+        "note": NOTE_COMMON + "  Optional queries that create nodes are F16b / the creation half.",
         "technique": "Coq proof (no-mutation stream invariant; embedding/frame lemma for creation) + snapshot differential correspondence",
     },
     "C02": {
